@@ -156,4 +156,1055 @@ theorem mem_eraseIdx_of_ne {α} {l : List α} {i : Nat} {x y : α} (hx : x ∈ l
       · exact Or.inl e
       · exact Or.inr (ih m hy)
 
+/-! ### preservation, event by event -/
+
+theorem count_zero_of_lt {l : List Nat} {n : Nat} (h : ∀ r, r ∈ l → r < n) : l.count n = 0 := by
+  apply List.count_eq_zero.mpr
+  intro hm
+  have := h n hm
+  omega
+
+theorem count_filter_ne (l : List Nat) (r x : Nat) :
+    (l.filter (· != r)).count x = if x = r then 0 else l.count x := by
+  induction l with
+  | nil => simp
+  | cons a rest ih =>
+    rw [List.filter_cons]
+    by_cases ha : a = r
+    · subst ha
+      simp only [bne_self_eq_false, Bool.false_eq_true, if_false, ih, List.count_cons]
+      split
+      · rfl
+      · rename_i hx
+        have : ¬ (a == x) = true := by simpa using fun e => hx e.symm
+        simp [this]
+    · have : (a != r) = true := by simpa using ha
+      simp only [this, if_true, List.count_cons, ih]
+      split <;> simp_all
+
+theorem count_map_eraseIdx {α} (f : α → Nat) {l : List α} {i : Nat} {y : α} (hy : l[i]? = some y) (x : Nat) :
+    (l.map f).count x = ((l.eraseIdx i).map f).count x + (if f y = x then 1 else 0) := by
+  induction l generalizing i with
+  | nil => simp at hy
+  | cons a rest ih =>
+    cases i with
+    | zero =>
+      simp only [List.getElem?_cons_zero, Option.some.injEq] at hy
+      subst hy
+      simp only [List.eraseIdx_cons_zero, List.map_cons, List.count_cons, beq_iff_eq]
+    | succ j =>
+      simp only [List.getElem?_cons_succ] at hy
+      simp only [List.eraseIdx_cons_succ, List.map_cons, List.count_cons, ih hy]
+      omega
+
+theorem mem_streams {c : Conn} {s r : Nat} (h : (s, r) ∈ c.server) : s ∈ srvStreams c :=
+  List.mem_map.mpr ⟨(s, r), h, rfl⟩
+
+theorem mem_reqs {c : Conn} {s r : Nat} (h : (s, r) ∈ c.server) : r ∈ srvReqs c :=
+  List.mem_map.mpr ⟨(s, r), h, rfl⟩
+
+theorem MapInv.submit {c : Conn} (h : MapInv c) : MapInv (step c .submit) := by
+  simp only [step]
+  split
+  · exact { h with reqLt := fun r hr => Nat.lt_succ_of_lt (h.reqLt r hr) }
+  · rename_i hb
+    refine { h with reqOnce := ?_, reqLt := ?_, brk := ?_ }
+    · intro r
+      have := h.reqOnce r
+      simp only [List.count_append, List.count_cons, List.count_nil]
+      split
+      · rename_i e
+        have e : c.nextReq = r := by simpa using e
+        subst e
+        have h1 := count_zero_of_lt (l := c.sending) (n := c.nextReq) (fun r hr => h.reqLt r (Or.inl hr))
+        have h2 := count_zero_of_lt (l := c.queue) (n := c.nextReq) (fun r hr => h.reqLt r (Or.inr (Or.inl hr)))
+        have h3 := count_zero_of_lt (l := srvReqs c) (n := c.nextReq) (fun r hr => h.reqLt r (Or.inr (Or.inr hr)))
+        simp only [srvReqs] at *
+        omega
+      · simp only [srvReqs] at *; omega
+    · intro r hr
+      simp only [List.mem_append, List.mem_singleton] at hr
+      rcases hr with hr | (hr | hr) | hr
+      · exact Nat.lt_succ_of_lt (h.reqLt r (Or.inl hr))
+      · exact Nat.lt_succ_of_lt (h.reqLt r (Or.inr (Or.inl hr)))
+      · subst hr; exact Nat.lt_succ_self _
+      · exact Nat.lt_succ_of_lt (h.reqLt r (Or.inr (Or.inr hr)))
+    · intro hb'; simp_all
+
+theorem MapInv.submitFull {c : Conn} (h : MapInv c) : MapInv (step c .submitFull) := by
+  simp only [step]
+  split
+  · exact { h with reqLt := fun r hr => Nat.lt_succ_of_lt (h.reqLt r hr) }
+  · rename_i hb
+    refine { h with reqOnce := ?_, reqLt := ?_, brk := ?_ }
+    · intro r
+      have := h.reqOnce r
+      simp only [List.count_append, List.count_cons, List.count_nil]
+      split
+      · rename_i e
+        have e : c.nextReq = r := by simpa using e
+        subst e
+        have h1 := count_zero_of_lt (l := c.sending) (n := c.nextReq) (fun r hr => h.reqLt r (Or.inl hr))
+        have h2 := count_zero_of_lt (l := c.queue) (n := c.nextReq) (fun r hr => h.reqLt r (Or.inr (Or.inl hr)))
+        have h3 := count_zero_of_lt (l := srvReqs c) (n := c.nextReq) (fun r hr => h.reqLt r (Or.inr (Or.inr hr)))
+        simp only [srvReqs] at *
+        omega
+      · simp only [srvReqs] at *; omega
+    · intro r hr
+      simp only [List.mem_append, List.mem_singleton] at hr
+      rcases hr with (hr | hr) | hr | hr
+      · exact Nat.lt_succ_of_lt (h.reqLt r (Or.inl hr))
+      · subst hr; exact Nat.lt_succ_self _
+      · exact Nat.lt_succ_of_lt (h.reqLt r (Or.inr (Or.inl hr)))
+      · exact Nat.lt_succ_of_lt (h.reqLt r (Or.inr (Or.inr hr)))
+    · intro hb'; simp_all
+
+theorem MapInv.enqueue {c : Conn} (r : Nat) (h : MapInv c) : MapInv (step c (.enqueue r)) := by
+  simp only [step]
+  split
+  · exact h
+  · split
+    · rename_i hb hmem
+      have hmem : r ∈ c.sending := by simpa using hmem
+      refine { h with reqOnce := ?_, reqLt := ?_, brk := ?_ }
+      · intro x
+        have := h.reqOnce x
+        simp only [List.count_append, List.count_cons, List.count_nil, count_filter_ne]
+        have hpos : 0 < c.sending.count r := List.count_pos_iff.mpr hmem
+        by_cases hx : x = r
+        · subst hx; simp only [srvReqs] at *; simp; omega
+        · have : ¬ (r == x) = true := by simpa using fun e => hx e.symm
+          simp only [srvReqs] at *
+          simp [hx, this]; omega
+      · intro x hx
+        simp only [List.mem_append, List.mem_singleton, List.mem_filter] at hx
+        rcases hx with hx | (hx | hx) | hx
+        · exact h.reqLt x (Or.inl hx.1)
+        · exact h.reqLt x (Or.inr (Or.inl hx))
+        · subst hx; exact h.reqLt x (Or.inl hmem)
+        · exact h.reqLt x (Or.inr (Or.inr hx))
+      · intro hb'; simp_all
+    · exact h
+
+theorem MapInv.writerTake {c : Conn} (h : MapInv c) : MapInv (step c .writerTake) := by
+  simp only [step]
+  split
+  · exact h
+  · rename_i hb
+    have hb : c.broken = false := by simpa using hb
+    split
+    · exact h
+    · rename_i r q hq
+      split
+      · rename_i s map' halloc
+        obtain ⟨ids', hids, hmap⟩ := hallocate_some halloc
+        subst hmap
+        obtain ⟨slt, sfree, _, sset, sother, slen⟩ := sallocate_some h.len hids
+        have sNotSrv : ∀ r', (s, r') ∉ c.server := by
+          intro r' hm
+          have := (h.srvUsed s r' hm).2
+          rw [sfree] at this; cases this
+        have sNotStreams : s ∉ srvStreams c := by
+          intro hm
+          obtain ⟨⟨s', r'⟩, hm2, e⟩ := List.mem_map.mp hm
+          simp only at e; subst e
+          exact sNotSrv r' hm2
+        have rq : 0 < c.queue.count r := by rw [hq]; simp
+        have rNotReqs : r ∉ srvReqs c := by
+          intro hm
+          have := List.count_pos_iff.mpr hm
+          have := h.reqOnce r
+          omega
+        have neOfSrv : ∀ s' r', (s', r') ∈ c.server → s ≠ s' := by
+          intro s' r' hm e; subst e; exact sNotSrv r' hm
+        constructor
+        · exact slen
+        · intro s' r' hm
+          simp only [List.mem_append, List.mem_singleton, Prod.mk.injEq] at hm
+          rcases hm with hm | ⟨e1, e2⟩
+          · have := h.srvUsed s' r' hm
+            refine ⟨this.1, ?_⟩
+            show ids'.isUsed s' = true
+            rw [sother s' (fun e => neOfSrv s' r' hm e.symm)]; exact this.2
+          · subst e1 e2; exact ⟨slt, sset⟩
+        · intro x
+          have := h.srvOnce x
+          simp only [srvStreams, List.map_append, List.count_append, List.map_cons, List.map_nil,
+            List.count_cons, List.count_nil] at *
+          split
+          · rename_i e
+            have e : s = x := by simpa using e
+            subst e
+            have : (c.server.map Prod.fst).count s = 0 := List.count_eq_zero.mpr sNotStreams
+            omega
+          · omega
+        · intro x
+          have := h.reqOnce x
+          rw [hq] at this
+          simp only [srvReqs, List.map_append, List.count_append, List.map_cons, List.map_nil,
+            List.count_cons, List.count_nil] at *
+          omega
+        · intro x hx
+          apply h.reqLt
+          simp only [srvReqs, List.map_append, List.mem_append, List.map_cons, List.map_nil, List.mem_singleton] at hx
+          rw [hq]
+          rcases hx with hx | hx | hx | hx
+          · exact Or.inl hx
+          · exact Or.inr (Or.inl (List.mem_cons_of_mem _ hx))
+          · exact Or.inr (Or.inr hx)
+          · subst hx; exact Or.inr (Or.inl (List.mem_cons_self))
+        · intro s' r' hh
+          simp only [AMap.get_insert] at hh
+          simp only [List.mem_append, List.mem_singleton, Prod.mk.injEq]
+          split at hh
+          · rename_i e; subst e
+            simp only [Option.some.injEq] at hh; subst hh
+            exact Or.inr ⟨rfl, rfl⟩
+          · exact Or.inl (h.hSrv s' r' hh)
+        · intro s' hs'
+          have := h.orphSrv s' hs'
+          refine ⟨?_, ?_⟩
+          · simp only [srvStreams, List.map_append, List.mem_append]; exact Or.inl this.1
+          · simp only [AMap.get_insert]
+            split
+            · rename_i e; subst e; exact absurd this.1 sNotStreams
+            · exact this.2
+        · intro _ s' r' hm
+          simp only [List.mem_append, List.mem_singleton, Prod.mk.injEq] at hm
+          simp only [AMap.get_insert]
+          rcases hm with hm | ⟨e1, e2⟩
+          · have hne := neOfSrv s' r' hm
+            simp only [hne, if_false]
+            exact h.owed hb s' r' hm
+          · subst e1 e2; simp
+        · intro r' s'
+          simp only [AMap.get_insert]
+          by_cases e1 : r = r' <;> by_cases e2 : s = s'
+          · subst e1 e2; simp
+          · subst e1
+            simp only [if_true, e2, if_false, Option.some.injEq]
+            constructor
+            · intro e; cases e
+            · intro hh; exact absurd (mem_reqs (h.hSrv s' r hh)) rNotReqs
+          · subst e2
+            simp only [e1, if_false, if_true, Option.some.injEq]
+            constructor
+            · intro hh; exact absurd (h.hSrv s r' ((h.inv r' s).mp hh)) (sNotSrv r')
+            · intro e; cases e
+          · simp only [e1, e2, if_false]; exact h.inv r' s'
+        · intro hb'; simp_all
+      · rename_i hnone
+        refine { h with reqOnce := ?_, reqLt := ?_, brk := ?_ }
+        · intro x
+          have := h.reqOnce x
+          rw [hq] at this
+          simp only [List.count_cons] at this
+          show c.sending.count x + q.count x + (srvReqs c).count x ≤ 1
+          omega
+        · intro x hx
+          apply h.reqLt
+          rw [hq]
+          rcases hx with hx | hx | hx
+          · exact Or.inl hx
+          · exact Or.inr (Or.inl (List.mem_cons_of_mem _ hx))
+          · exact Or.inr (Or.inr hx)
+        · intro hb'; simp_all
+
+theorem MapInv.cancel {c : Conn} (r : Nat) (h : MapInv c) : MapInv (step c (.cancel r)) := by
+  simp only [step]
+  have key : MapInv ({ c with callers := setCaller c.callers r CallerSt.abandoned,
+                               sending := c.sending.filter (fun x => x != r),
+                               notices := if c.broken then c.notices else c.notices ++ [r] } : Conn) := by
+    refine { h with reqOnce := ?_, reqLt := ?_, brk := ?_ }
+    · intro x
+      have := h.reqOnce x
+      show (c.sending.filter (· != r)).count x + c.queue.count x + (srvReqs c).count x ≤ 1
+      rw [count_filter_ne]
+      split <;> omega
+    · intro x hx
+      apply h.reqLt
+      rcases hx with hx | hx | hx
+      · exact Or.inl (List.mem_filter.mp hx).1
+      · exact Or.inr (Or.inl hx)
+      · exact Or.inr (Or.inr hx)
+    · intro hb
+      have := h.brk hb
+      refine ⟨this.1, ?_, ?_, this.2.2.2⟩
+      · show c.sending.filter (· != r) = []
+        rw [this.2.1]; rfl
+      · show (if c.broken = true then c.notices else c.notices ++ [r]) = []
+        rw [if_pos hb]; exact this.2.2.1
+  split
+  · exact key
+  · exact key
+  · exact h
+
+theorem MapInv.orphanerStep {c : Conn} (h : MapInv c) : MapInv (step c .orphanerStep) := by
+  simp only [step]
+  split
+  · exact h
+  · rename_i hb
+    have hb : c.broken = false := by simpa using hb
+    split
+    · exact h
+    · rename_i r ns hn
+      cases hq : c.map.req2stream.get r with
+      | none =>
+        rw [horphan_none hq]
+        exact { h with brk := by intro hb'; simp_all }
+      | some s =>
+        rw [horphan_some hq]
+        have hhs : c.map.handlers.get s = some r := (h.inv r s).mp hq
+        have hsrv : (s, r) ∈ c.server := h.hSrv s r hhs
+        have memOrph : ∀ x, x ∈ (if c.map.orphans.contains s then c.map.orphans else s :: c.map.orphans) ↔
+            x = s ∨ x ∈ c.map.orphans := by
+          intro x
+          split
+          · rename_i hc
+            have hc : s ∈ c.map.orphans := by simpa using hc
+            constructor
+            · exact Or.inr
+            · rintro (e | m)
+              · subst e; exact hc
+              · exact m
+          · simp
+        constructor
+        · exact h.len
+        · exact h.srvUsed
+        · exact h.srvOnce
+        · exact h.reqOnce
+        · exact h.reqLt
+        · intro s' r' hh
+          simp only [AMap.get_erase] at hh
+          split at hh
+          · cases hh
+          · exact h.hSrv s' r' hh
+        · intro s' hs'
+          simp only [AMap.get_erase]
+          rcases (memOrph s').mp hs' with e | m
+          · subst e; exact ⟨mem_streams hsrv, by simp⟩
+          · have := h.orphSrv s' m
+            refine ⟨this.1, ?_⟩
+            split
+            · rfl
+            · exact this.2
+        · intro _ s' r' hm
+          simp only [AMap.get_erase]
+          by_cases e : s = s'
+          · subst e; exact Or.inl ((memOrph s).mpr (Or.inl rfl))
+          · simp only [e, if_false]
+            rcases h.owed hb s' r' hm with o | hh
+            · exact Or.inl ((memOrph s').mpr (Or.inr o))
+            · exact Or.inr hh
+        · intro r' s'
+          simp only [AMap.get_erase]
+          by_cases e1 : r = r' <;> by_cases e2 : s = s'
+          · subst e1 e2; simp
+          · subst e1
+            simp only [if_true, e2, if_false]
+            constructor
+            · intro e; cases e
+            · intro hh
+              have := (h.inv r s').mpr hh
+              rw [hq] at this
+              simp only [Option.some.injEq] at this
+              exact absurd this e2
+          · subst e2
+            simp only [e1, if_false, if_true]
+            constructor
+            · intro hh
+              have := (h.inv r' s).mp hh
+              rw [hhs] at this
+              simp only [Option.some.injEq] at this
+              exact absurd this e1
+            · intro e; cases e
+          · simp only [e1, e2, if_false]; exact h.inv r' s'
+        · intro hb'; simp_all
+
+theorem MapInv.doBreak {c : Conn} (k : BreakKind) (h : MapInv c) : MapInv (doBreak c k) := by
+  unfold Conn.doBreak
+  constructor
+  · exact h.len
+  · exact h.srvUsed
+  · exact h.srvOnce
+  · intro x
+    have := h.reqOnce x
+    show ([] : List Nat).count x + ([] : List Nat).count x + (srvReqs c).count x ≤ 1
+    simp only [List.count_nil]; omega
+  · intro x hx
+    apply h.reqLt
+    rcases hx with hx | hx | hx
+    · cases hx
+    · cases hx
+    · exact Or.inr (Or.inr hx)
+  · intro s r hh; cases hh
+  · intro s hs; cases hs
+  · intro hb; cases hb
+  · intro r s
+    show AMap.get [] r = some s ↔ AMap.get [] s = some r
+    simp
+  · intro _; exact ⟨rfl, rfl, rfl, rfl⟩
+
+/-- A frame on a stream the server does not owe: the lookup frees the id and finds nothing. -/
+theorem MapInv.freeUnowed {c : Conn} {s : Nat} (h : MapInv c) (hs : s ∉ srvStreams c) :
+    MapInv ({ c with map := { c.map with ids := c.map.ids.free s } } : Conn) := by
+  refine { h with len := ?_, srvUsed := ?_ }
+  · show (c.map.ids.free s).blocks.length = 512
+    rw [free_length]; exact h.len
+  · intro s' r' hm
+    have := h.srvUsed s' r' hm
+    refine ⟨this.1, ?_⟩
+    show (c.map.ids.free s).isUsed s' = true
+    rw [free_isUsed, this.2]
+    have : s' ≠ s := fun e => hs (e ▸ mem_streams hm)
+    simp [this]
+
+theorem lookup_unowed {c : Conn} {s : Nat} (h : MapInv c) (hs : s ∉ srvStreams c) :
+    c.map.lookup s = (.missing, { c.map with ids := c.map.ids.free s }) := by
+  apply hlookup_missing
+  · intro ho; exact hs (h.orphSrv s ho).1
+  · cases hh : c.map.handlers.get s with
+    | none => rfl
+    | some r => exact absurd (mem_streams (h.hSrv s r hh)) hs
+
+theorem not_mem_streams_of_any {c : Conn} {s : Nat} (h : ¬ (c.server.any (fun p => p.1 == s)) = true) :
+    s ∉ srvStreams c := by
+  intro hm
+  apply h
+  obtain ⟨⟨s', r'⟩, hm2, e⟩ := List.mem_map.mp hm
+  simp only at e; subst e
+  exact List.any_eq_true.mpr ⟨(s', r'), hm2, by simp⟩
+
+theorem MapInv.unsolicited {c : Conn} (s : Nat) (h : MapInv c) : MapInv (step c (.unsolicited s)) := by
+  simp only [step]
+  split
+  · exact h
+  · split
+    · exact h
+    · split
+      · exact h
+      · rename_i hany
+        have hs := not_mem_streams_of_any hany
+        rw [lookup_unowed h hs]
+        exact (h.freeUnowed hs).doBreak _
+
+/-- What the reader's lookup finds for an answer the server owes. -/
+theorem lookup_owed {c : Conn} {s r : Nat} (h : MapInv c) (hb : c.broken = false) (hm : (s, r) ∈ c.server) :
+    (s ∈ c.map.orphans ∧ c.map.lookup s = (LookupRes.orphaned,
+        ({ c.map with ids := c.map.ids.free s, orphans := c.map.orphans.filter (fun x => x != s) } : HMap))) ∨
+    (s ∉ c.map.orphans ∧ c.map.handlers.get s = some r ∧
+      c.map.lookup s = (LookupRes.handler r,
+        ({ c.map with ids := c.map.ids.free s, handlers := c.map.handlers.erase s,
+                      req2stream := c.map.req2stream.erase r } : HMap))) := by
+  rcases h.owed hb s r hm with ho | hh
+  · exact Or.inl ⟨ho, hlookup_orphaned ho⟩
+  · have hno : s ∉ c.map.orphans := by
+      intro ho
+      have := (h.orphSrv s ho).2
+      rw [hh] at this; cases this
+    exact Or.inr ⟨hno, hh, hlookup_handler hno hh⟩
+
+theorem MapInv.respond {c : Conn} (i : Nat) (h : MapInv c) : MapInv (step c (.respond i)) := by
+  simp only [step]
+  split
+  · exact h
+  · rename_i hb
+    have hb : c.broken = false := by simpa using hb
+    split
+    · exact h
+    · rename_i s r hi
+      have hm : (s, r) ∈ c.server := List.mem_of_getElem? hi
+      -- facts about the remaining server entries
+      have cntS := count_map_eraseIdx Prod.fst hi
+      have cntR := count_map_eraseIdx Prod.snd hi
+      have restNe : ∀ s' r', (s', r') ∈ c.server.eraseIdx i → s' ≠ s := by
+        intro s' r' hm' e
+        subst e
+        have h1 := cntS s'
+        have h2 : 0 < ((c.server.eraseIdx i).map Prod.fst).count s' :=
+          List.count_pos_iff.mpr (List.mem_map.mpr ⟨(s', r'), hm', rfl⟩)
+        have h3 := h.srvOnce s'
+        simp only [srvStreams] at h3
+        simp at h1
+        omega
+      have keep : ∀ s' r', (s', r') ∈ c.server → s' ≠ s → (s', r') ∈ c.server.eraseIdx i := by
+        intro s' r' hm' hne
+        exact mem_eraseIdx_of_ne hm' hi (by intro e; cases e; exact hne rfl)
+      have base : ∀ (m' : HMap) (cs : List (Nat × CallerSt)), m'.ids = c.map.ids.free s →
+          (∀ s' r', m'.handlers.get s' = some r' → s' ≠ s ∧ c.map.handlers.get s' = some r') →
+          (∀ s', s' ∈ m'.orphans → s' ≠ s ∧ s' ∈ c.map.orphans) →
+          (∀ s', s' ≠ s → c.map.handlers.get s' = none → m'.handlers.get s' = none) →
+          (∀ s' r', (s', r') ∈ c.server.eraseIdx i → s' ∈ c.map.orphans → s' ∈ m'.orphans) →
+          (∀ s' r', s' ≠ s → c.map.handlers.get s' = some r' → m'.handlers.get s' = some r') →
+          (∀ r' s', m'.req2stream.get r' = some s' ↔ m'.handlers.get s' = some r') →
+          MapInv ({ c with server := c.server.eraseIdx i, map := m', callers := cs } : Conn) := by
+        intro m' cs hids hh ho hnone horph hsome hinv
+        constructor
+        · show m'.ids.blocks.length = 512
+          rw [hids, free_length]; exact h.len
+        · intro s' r' hm'
+          have := h.srvUsed s' r' (mem_of_mem_eraseIdx hm')
+          refine ⟨this.1, ?_⟩
+          show m'.ids.isUsed s' = true
+          rw [hids, free_isUsed, this.2]
+          simp [restNe s' r' hm']
+        · intro x
+          have h1 := cntS x
+          have h3 := h.srvOnce x
+          simp only [srvStreams] at *
+          omega
+        · intro x
+          have h1 := cntR x
+          have h3 := h.reqOnce x
+          simp only [srvReqs] at *
+          omega
+        · intro x hx
+          apply h.reqLt
+          rcases hx with hx | hx | hx
+          · exact Or.inl hx
+          · exact Or.inr (Or.inl hx)
+          · refine Or.inr (Or.inr ?_)
+            obtain ⟨p, hp, e⟩ := List.mem_map.mp hx
+            exact List.mem_map.mpr ⟨p, mem_of_mem_eraseIdx hp, e⟩
+        · intro s' r' hh'
+          have := hh s' r' hh'
+          exact keep s' r' (h.hSrv s' r' this.2) this.1
+        · intro s' hs'
+          have := ho s' hs'
+          have old := h.orphSrv s' this.2
+          obtain ⟨⟨s'', r''⟩, hp, e⟩ := List.mem_map.mp old.1
+          simp only at e; subst e
+          exact ⟨List.mem_map.mpr ⟨(s'', r''), keep s'' r'' hp this.1, rfl⟩, hnone s'' this.1 old.2⟩
+        · intro _ s' r' hm'
+          have hne := restNe s' r' hm'
+          rcases h.owed hb s' r' (mem_of_mem_eraseIdx hm') with o | hh'
+          · exact Or.inl (horph s' r' hm' o)
+          · exact Or.inr (hsome s' r' hne hh')
+        · exact hinv
+        · intro hb'
+          have : c.broken = true := hb'
+          rw [hb] at this; cases this
+      rcases lookup_owed h hb hm with ⟨ho, hl⟩ | ⟨hno, hh, hl⟩
+      · rw [hl]
+        apply base _ c.callers
+        · rfl
+        · intro s' r' hh'
+          refine ⟨?_, hh'⟩
+          intro e; subst e
+          have := (h.orphSrv s' ho).2
+          rw [this] at hh'; cases hh'
+        · intro s' hs'
+          have := List.mem_filter.mp hs'
+          exact ⟨by simpa using this.2, this.1⟩
+        · intro s' _ hn; exact hn
+        · intro s' r' hm' o
+          exact List.mem_filter.mpr ⟨o, by simpa using restNe s' r' hm'⟩
+        · intro s' r' _ hh'; exact hh'
+        · exact h.inv
+      · rw [hl]
+        apply base
+        · rfl
+        · intro s' r' hh'
+          simp only [AMap.get_erase] at hh'
+          split at hh'
+          · cases hh'
+          · rename_i hne; exact ⟨fun e => hne e.symm, hh'⟩
+        · intro s' hs'
+          refine ⟨?_, hs'⟩
+          intro e; exact hno (e ▸ hs')
+        · intro s' hne hn
+          simp only [AMap.get_erase]
+          split
+          · rfl
+          · exact hn
+        · intro s' r' _ o; exact o
+        · intro s' r' hne hh'
+          simp only [AMap.get_erase]
+          have : ¬ s = s' := fun e => hne e.symm
+          simp only [this, if_false]; exact hh'
+        · intro r' s'
+          simp only [AMap.get_erase]
+          by_cases e1 : r = r' <;> by_cases e2 : s = s'
+          · subst e1 e2; simp
+          · subst e1
+            simp only [if_true, e2, if_false]
+            constructor
+            · intro e; cases e
+            · intro hh'
+              have h1 := (h.inv r s').mpr hh'
+              have h2 := (h.inv r s).mpr hh
+              rw [h1] at h2
+              simp only [Option.some.injEq] at h2
+              exact absurd h2.symm e2
+          · subst e2
+            simp only [e1, if_false, if_true]
+            constructor
+            · intro hh'
+              have := (h.inv r' s).mp hh'
+              rw [hh] at this
+              simp only [Option.some.injEq] at this
+              exact absurd this e1
+            · intro e; cases e
+          · simp only [e1, e2, if_false]; exact h.inv r' s'
+
+theorem MapInv.recv {c : Conn} (r : Nat) (h : MapInv c) : MapInv (step c (.recv r)) := by
+  simp only [step]
+  split
+  · exact { h with }
+  · exact h
+
+theorem MapInv.break_ {c : Conn} (k : BreakKind) (h : MapInv c) : MapInv (step c (.break_ k)) := by
+  simp only [step]
+  split
+  · exact h
+  · exact h.doBreak k
+
+theorem MapInv.step {c : Conn} (h : MapInv c) (e : Ev) : MapInv (step c e) := by
+  cases e with
+  | submit => exact h.submit
+  | submitFull => exact h.submitFull
+  | enqueue r => exact h.enqueue r
+  | writerTake => exact h.writerTake
+  | cancel r => exact h.cancel r
+  | orphanerStep => exact h.orphanerStep
+  | respond i => exact h.respond i
+  | unsolicited s => exact h.unsolicited s
+  | recv r => exact h.recv r
+  | break_ k => exact h.break_ k
+
+theorem MapInv.run {c : Conn} (h : MapInv c) (evs : List Ev) : MapInv (run c evs) := by
+  unfold Conn.run
+  induction evs generalizing c with
+  | nil => exact h
+  | cons e rest ih => exact ih (h.step e)
+
+
+/-! ### the invariant of the caller table -/
+
+structure CallerInv (c : Conn) : Prop where
+  tracked : ∀ r, getCaller c.callers r = some .waiting →
+      r ∈ c.sending ∨ r ∈ c.queue ∨ ∃ s, c.map.handlers.get s = some r
+  own : ∀ r f, (getCaller c.callers r = some (.delivered (.frame f)) ∨
+      getCaller c.callers r = some (.done (.frame f))) → f = r
+  noticeAb : ∀ r, r ∈ c.notices → getCaller c.callers r = some .abandoned
+  callerLt : ∀ r st, getCaller c.callers r = some st → r < c.nextReq
+
+theorem CallerInv.init : CallerInv Conn.init := by
+  constructor <;> simp [Conn.init, getCaller]
+
+/-- Installing a fresh caller entry for `nextReq`. -/
+theorem CallerInv.fresh {c : Conn} (h : CallerInv c) (st : CallerSt) (sending queue : List Nat)
+    (hst : st = .waiting → c.nextReq ∈ sending ∨ c.nextReq ∈ queue)
+    (hframe : ∀ f, st ≠ .delivered (.frame f) ∧ st ≠ .done (.frame f))
+    (hs : ∀ r, r ∈ c.sending → r ∈ sending) (hq : ∀ r, r ∈ c.queue → r ∈ queue) :
+    CallerInv ({ c with nextReq := c.nextReq + 1, sending := sending, queue := queue,
+                        callers := setCaller c.callers c.nextReq st } : Conn) := by
+  constructor
+  · intro r hw
+    simp only [getCaller_setCaller] at hw
+    split at hw
+    · rename_i e; subst e
+      simp only [Option.some.injEq] at hw
+      rcases hst hw with m | m
+      · exact Or.inl m
+      · exact Or.inr (Or.inl m)
+    · rcases h.tracked r hw with m | m | m
+      · exact Or.inl (hs r m)
+      · exact Or.inr (Or.inl (hq r m))
+      · exact Or.inr (Or.inr m)
+  · intro r f hf
+    simp only [getCaller_setCaller] at hf
+    split at hf
+    · rename_i e; subst e
+      simp only [Option.some.injEq] at hf
+      rcases hf with e | e
+      · exact absurd e (hframe f).1
+      · exact absurd e (hframe f).2
+    · exact h.own r f hf
+  · intro r hr
+    have ab := h.noticeAb r hr
+    have := h.callerLt r _ ab
+    simp only [getCaller_setCaller]
+    have : ¬ c.nextReq = r := by omega
+    simp only [this, if_false]; exact ab
+  · intro r st' hg
+    simp only [getCaller_setCaller] at hg
+    show r < c.nextReq + 1
+    split at hg
+    · rename_i e; subst e; exact Nat.lt_succ_self _
+    · exact Nat.lt_succ_of_lt (h.callerLt r st' hg)
+
+theorem CallerInv.submit {c : Conn} (h : CallerInv c) : CallerInv (step c .submit) := by
+  simp only [step]
+  split
+  · exact h.fresh _ c.sending c.queue (by intro e; cases e) (by intro f; constructor <;> (intro e; cases e))
+      (fun _ m => m) (fun _ m => m)
+  · exact h.fresh _ c.sending (c.queue ++ [c.nextReq]) (by intro _; right; simp)
+      (by intro f; constructor <;> (intro e; cases e)) (fun _ m => m)
+      (fun _ m => List.mem_append_left _ m)
+
+theorem CallerInv.submitFull {c : Conn} (h : CallerInv c) : CallerInv (step c .submitFull) := by
+  simp only [step]
+  split
+  · exact h.fresh _ c.sending c.queue (by intro e; cases e) (by intro f; constructor <;> (intro e; cases e))
+      (fun _ m => m) (fun _ m => m)
+  · exact h.fresh _ (c.sending ++ [c.nextReq]) c.queue (by intro _; left; simp)
+      (by intro f; constructor <;> (intro e; cases e))
+      (fun _ m => List.mem_append_left _ m) (fun _ m => m)
+
+theorem CallerInv.enqueue {c : Conn} (r : Nat) (h : CallerInv c) : CallerInv (step c (.enqueue r)) := by
+  simp only [step]
+  split
+  · exact h
+  · split
+    · refine { h with tracked := ?_ }
+      intro r' hw
+      rcases h.tracked r' hw with m | m | m
+      · by_cases e : r' = r
+        · subst e; exact Or.inr (Or.inl (by simp))
+        · exact Or.inl (List.mem_filter.mpr ⟨m, by simpa using e⟩)
+      · exact Or.inr (Or.inl (List.mem_append_left _ m))
+      · exact Or.inr (Or.inr m)
+    · exact h
+
+/-- Completing caller `r`'s oneshot with `o` (a frame only if it is `r`'s own). -/
+theorem CallerInv.deliver {c : Conn} (h : CallerInv c) (r : Nat) (o : Outcome) (m' : HMap) (sending queue : List Nat)
+    (server : List (Nat × Nat))
+    (ho : ∀ f, o = .frame f → f = r)
+    (htr : ∀ r', r' ≠ r → getCaller c.callers r' = some .waiting →
+      r' ∈ sending ∨ r' ∈ queue ∨ ∃ s, m'.handlers.get s = some r') :
+    CallerInv ({ c with map := m', sending := sending, queue := queue, server := server,
+                        callers := Conn.deliver c.callers r o } : Conn) := by
+  constructor
+  · intro r' hw
+    simp only [getCaller_deliver] at hw
+    split at hw
+    · cases hw
+    · rename_i hc
+      have hne : r' ≠ r := by
+        intro e; subst e; exact hc ⟨rfl, hw⟩
+      exact htr r' hne hw
+  · intro r' f hf
+    simp only [getCaller_deliver] at hf
+    split at hf
+    · rename_i hc
+      rcases hf with e | e
+      · simp only [Option.some.injEq, CallerSt.delivered.injEq] at e
+        rw [← hc.1]; exact ho f e
+      · cases e
+    · exact h.own r' f hf
+  · intro r' hr
+    have ab := h.noticeAb r' hr
+    simp only [getCaller_deliver]
+    split
+    · rename_i hc
+      rw [← hc.1, hc.2] at ab; cases ab
+    · exact ab
+  · intro r' st hg
+    simp only [getCaller_deliver] at hg
+    split at hg
+    · rename_i hc; rw [← hc.1]; exact h.callerLt r _ hc.2
+    · exact h.callerLt r' st hg
+
+
+theorem CallerInv.writerTake {c : Conn} (hm : MapInv c) (h : CallerInv c) : CallerInv (step c .writerTake) := by
+  simp only [step]
+  split
+  · exact h
+  · split
+    · exact h
+    · rename_i r q hq
+      split
+      · rename_i s map' halloc
+        obtain ⟨ids', hids, hmap⟩ := hallocate_some halloc
+        subst hmap
+        obtain ⟨_, sfree, _, _, _, _⟩ := sallocate_some hm.len hids
+        refine { h with tracked := ?_ }
+        intro r' hw
+        show r' ∈ c.sending ∨ r' ∈ q ∨ ∃ s', (c.map.handlers.insert s r).get s' = some r'
+        rcases h.tracked r' hw with m | m | ⟨s', hs'⟩
+        · exact Or.inl m
+        · rw [hq] at m
+          rcases List.mem_cons.mp m with e | m
+          · subst e; exact Or.inr (Or.inr ⟨s, by simp [AMap.get_insert]⟩)
+          · exact Or.inr (Or.inl m)
+        · refine Or.inr (Or.inr ⟨s', ?_⟩)
+          have hne : s ≠ s' := by
+            intro e; subst e
+            have := (hm.srvUsed s r' (hm.hSrv s r' hs')).2
+            rw [sfree] at this; cases this
+          simp only [AMap.get_insert, hne, if_false]; exact hs'
+      · apply h.deliver r _ c.map c.sending q c.server
+        · intro f e; cases e
+        · intro r' hne hw
+          rcases h.tracked r' hw with m | m | m
+          · exact Or.inl m
+          · rw [hq] at m
+            rcases List.mem_cons.mp m with e | m
+            · exact absurd e hne
+            · exact Or.inr (Or.inl m)
+          · exact Or.inr (Or.inr m)
+
+theorem CallerInv.cancel {c : Conn} (r : Nat) (h : CallerInv c) : CallerInv (step c (.cancel r)) := by
+  simp only [step]
+  have key : (∃ st, getCaller c.callers r = some st) →
+      CallerInv ({ c with callers := setCaller c.callers r CallerSt.abandoned,
+                          sending := c.sending.filter (fun x => x != r),
+                          notices := if c.broken then c.notices else c.notices ++ [r] } : Conn) := by
+    intro ⟨st, hst⟩
+    constructor
+    · intro r' hw
+      simp only [getCaller_setCaller] at hw
+      split at hw
+      · cases hw
+      · rename_i hne
+        rcases h.tracked r' hw with m | m | m
+        · exact Or.inl (List.mem_filter.mpr ⟨m, by simpa using fun e => hne e.symm⟩)
+        · exact Or.inr (Or.inl m)
+        · exact Or.inr (Or.inr m)
+    · intro r' f hf
+      simp only [getCaller_setCaller] at hf
+      split at hf
+      · rcases hf with e | e <;> cases e
+      · exact h.own r' f hf
+    · intro r' hr
+      simp only [getCaller_setCaller]
+      split
+      · rfl
+      · rename_i hne
+        apply h.noticeAb
+        have hr : r' ∈ (if c.broken = true then c.notices else c.notices ++ [r]) := hr
+        split at hr
+        · exact hr
+        · rcases List.mem_append.mp hr with m | m
+          · exact m
+          · simp only [List.mem_singleton] at m; exact absurd m.symm hne
+    · intro r' st' hg
+      simp only [getCaller_setCaller] at hg
+      split at hg
+      · rename_i e; subst e; exact h.callerLt r st hst
+      · exact h.callerLt r' st' hg
+  split
+  · rename_i hg; exact key ⟨_, hg⟩
+  · rename_i hg; exact key ⟨_, hg⟩
+  · exact h
+
+theorem CallerInv.orphanerStep {c : Conn} (hm : MapInv c) (h : CallerInv c) : CallerInv (step c .orphanerStep) := by
+  simp only [step]
+  split
+  · exact h
+  · split
+    · exact h
+    · rename_i r ns hn
+      have hab : getCaller c.callers r = some .abandoned := h.noticeAb r (by rw [hn]; simp)
+      have hns : ∀ x, x ∈ ns → x ∈ c.notices := by intro x hx; rw [hn]; exact List.mem_cons_of_mem _ hx
+      cases hq : c.map.req2stream.get r with
+      | none =>
+        rw [horphan_none hq]
+        exact { h with noticeAb := fun x hx => h.noticeAb x (hns x hx) }
+      | some s =>
+        rw [horphan_some hq]
+        have hhs : c.map.handlers.get s = some r := (hm.inv r s).mp hq
+        refine { h with noticeAb := fun x hx => h.noticeAb x (hns x hx), tracked := ?_ }
+        intro r' hw
+        show r' ∈ c.sending ∨ r' ∈ c.queue ∨ ∃ s', (c.map.handlers.erase s).get s' = some r'
+        rcases h.tracked r' hw with m | m | ⟨s', hs'⟩
+        · exact Or.inl m
+        · exact Or.inr (Or.inl m)
+        · refine Or.inr (Or.inr ⟨s', ?_⟩)
+          have hne : s ≠ s' := by
+            intro e; subst e
+            rw [hhs] at hs'
+            simp only [Option.some.injEq] at hs'
+            subst hs'
+            rw [hab] at hw; cases hw
+          simp only [AMap.get_erase, hne, if_false]; exact hs'
+
+/-- After the router has ended nobody is left waiting, and nothing else changes for the callers. -/
+theorem doBreak_callers (c : Conn) (k : BreakKind) (r : Nat) :
+    getCaller (doBreak c k).callers r =
+      if getCaller c.callers r = some .waiting then
+        (if r ∈ c.map.handlers.map (·.2) then some (.delivered (.err (.broken k)))
+         else if r ∈ c.queue ∨ r ∈ c.sending then some (.delivered (.err .channelError))
+         else some .waiting)
+      else getCaller c.callers r := by
+  show getCaller (failAll (failAll (failAll c.callers _ _) _ _) _ _) r = _
+  simp only [getCaller_failAll]
+  by_cases hw : getCaller c.callers r = some .waiting
+  · by_cases h1 : r ∈ c.map.handlers.map (·.2)
+    · simp [hw, h1]
+    · by_cases h2 : r ∈ c.queue
+      · simp [hw, h1, h2]
+      · by_cases h3 : r ∈ c.sending <;> simp [hw, h1, h2, h3]
+  · simp [hw]
+
+theorem CallerInv.doBreak {c : Conn} (k : BreakKind) (h : CallerInv c) : CallerInv (doBreak c k) := by
+  constructor
+  · intro r hw
+    rw [doBreak_callers] at hw
+    split at hw
+    · rename_i hwait
+      rcases h.tracked r hwait with m | m | ⟨s, hs⟩
+      · have : r ∈ c.queue ∨ r ∈ c.sending := Or.inr m
+        split at hw
+        · cases hw
+        · first | cases hw | (rw [if_pos this] at hw; cases hw)
+      · have : r ∈ c.queue ∨ r ∈ c.sending := Or.inl m
+        split at hw
+        · cases hw
+        · first | cases hw | (rw [if_pos this] at hw; cases hw)
+      · have := AMap.get_some_mem _ _ _ hs
+        simp only [this, if_true] at hw; cases hw
+    · rename_i hnw; exact absurd hw hnw
+  · intro r f hf
+    rw [doBreak_callers] at hf
+    split at hf
+    · rename_i hwait
+      split at hf
+      · rcases hf with e | e <;> cases e
+      · split at hf
+        · rcases hf with e | e <;> cases e
+        · rcases hf with e | e <;> cases e
+    · exact h.own r f hf
+  · intro r hr; cases hr
+  · intro r st hg
+    rw [doBreak_callers] at hg
+    split at hg
+    · rename_i hwait; exact h.callerLt r _ hwait
+    · exact h.callerLt r st hg
+
+theorem CallerInv.unsolicited {c : Conn} (hm : MapInv c) (s : Nat) (h : CallerInv c) :
+    CallerInv (step c (.unsolicited s)) := by
+  simp only [step]
+  split
+  · exact h
+  · split
+    · exact h
+    · split
+      · exact h
+      · rename_i hany
+        have hs := not_mem_streams_of_any hany
+        rw [lookup_unowed hm hs]
+        apply CallerInv.doBreak
+        exact { h with }
+
+theorem CallerInv.respond {c : Conn} (hm : MapInv c) (i : Nat) (h : CallerInv c) :
+    CallerInv (step c (.respond i)) := by
+  simp only [step]
+  split
+  · exact h
+  · rename_i hb
+    have hb : c.broken = false := by simpa using hb
+    split
+    · exact h
+    · rename_i s r hi
+      have hmem : (s, r) ∈ c.server := List.mem_of_getElem? hi
+      rcases lookup_owed hm hb hmem with ⟨ho, hl⟩ | ⟨hno, hh, hl⟩
+      · rw [hl]
+        exact { h with }
+      · rw [hl]
+        apply h.deliver r _ _ c.sending c.queue
+        · intro f e; cases e; rfl
+        · intro r' hne hw
+          rcases h.tracked r' hw with m | m | ⟨s', hs'⟩
+          · exact Or.inl m
+          · exact Or.inr (Or.inl m)
+          · refine Or.inr (Or.inr ⟨s', ?_⟩)
+            have hne' : s ≠ s' := by
+              intro e; subst e
+              rw [hh] at hs'
+              simp only [Option.some.injEq] at hs'
+              exact hne hs'.symm
+            show (c.map.handlers.erase s).get s' = some r'
+            simp only [AMap.get_erase, hne', if_false]; exact hs'
+
+theorem CallerInv.recv {c : Conn} (r : Nat) (h : CallerInv c) : CallerInv (step c (.recv r)) := by
+  simp only [step]
+  split
+  · rename_i o hg
+    constructor
+    · intro r' hw
+      simp only [getCaller_setCaller] at hw
+      split at hw
+      · cases hw
+      · exact h.tracked r' hw
+    · intro r' f hf
+      simp only [getCaller_setCaller] at hf
+      split at hf
+      · rename_i e; subst e
+        rcases hf with e | e
+        · cases e
+        · simp only [Option.some.injEq, CallerSt.done.injEq] at e
+          subst e
+          exact h.own r f (Or.inl hg)
+      · exact h.own r' f hf
+    · intro r' hr
+      have ab := h.noticeAb r' hr
+      simp only [getCaller_setCaller]
+      split
+      · rename_i e; subst e; rw [hg] at ab; cases ab
+      · exact ab
+    · intro r' st hg'
+      simp only [getCaller_setCaller] at hg'
+      split at hg'
+      · rename_i e; subst e; exact h.callerLt r _ hg
+      · exact h.callerLt r' st hg'
+  · exact h
+
+theorem CallerInv.break_ {c : Conn} (k : BreakKind) (h : CallerInv c) : CallerInv (step c (.break_ k)) := by
+  simp only [step]
+  split
+  · exact h
+  · exact h.doBreak k
+
+/-- Both invariants together. -/
+structure Inv (c : Conn) : Prop where
+  map : MapInv c
+  callers : CallerInv c
+
+theorem Inv.init : Inv Conn.init := ⟨MapInv.init, CallerInv.init⟩
+
+theorem Inv.step {c : Conn} (h : Inv c) (e : Ev) : Inv (Conn.step c e) := by
+  refine ⟨h.map.step e, ?_⟩
+  cases e with
+  | submit => exact h.callers.submit
+  | submitFull => exact h.callers.submitFull
+  | enqueue r => exact h.callers.enqueue r
+  | writerTake => exact h.callers.writerTake h.map
+  | cancel r => exact h.callers.cancel r
+  | orphanerStep => exact h.callers.orphanerStep h.map
+  | respond i => exact h.callers.respond h.map i
+  | unsolicited s => exact h.callers.unsolicited h.map s
+  | recv r => exact h.callers.recv r
+  | break_ k => exact h.callers.break_ k
+
+theorem Inv.run {c : Conn} (h : Inv c) (evs : List Ev) : Inv (Conn.run c evs) := by
+  unfold Conn.run
+  induction evs generalizing c with
+  | nil => exact h
+  | cons e rest ih => exact ih (h.step e)
+
+theorem Inv.reachable (evs : List Ev) : Inv (Conn.run Conn.init evs) := Inv.init.run evs
+
+
+theorem two_entries_count {l : List (Nat × Nat)} {s s' r : Nat} (hne : s' ≠ s) (h1 : (s', r) ∈ l) (h2 : (s, r) ∈ l) :
+    2 ≤ (l.map Prod.snd).count r := by
+  induction l with
+  | nil => cases h1
+  | cons p rest ih =>
+    simp only [List.map_cons, List.count_cons]
+    rcases List.mem_cons.mp h1 with e1 | m1 <;> rcases List.mem_cons.mp h2 with e2 | m2
+    · rw [← e1] at e2; cases e2; exact absurd rfl hne
+    · have : 0 < (rest.map Prod.snd).count r :=
+        List.count_pos_iff.mpr (List.mem_map.mpr ⟨(s, r), m2, rfl⟩)
+      subst e1
+      simp only [beq_self_eq_true, if_true]
+      omega
+    · have : 0 < (rest.map Prod.snd).count r :=
+        List.count_pos_iff.mpr (List.mem_map.mpr ⟨(s', r), m1, rfl⟩)
+      subst e2
+      simp only [beq_self_eq_true, if_true]
+      omega
+    · have := ih m1 m2; omega
+
 end ScyllaVerif.Conn
